@@ -390,6 +390,13 @@ fn run_case(case: &str) -> String {
             let t = if *k == "V" { vec_t(e.clone(), dim) } else { list_t(e.clone()) };
             typed::run_cells(carrier, &t, &e, &cells).unwrap_or_else(err_case)
         }
+        ["E", carrier, ts, hx] => {
+            let (t, b) = match (type_of_str(ts), unhex(hx)) {
+                (Ok(t), Ok(b)) => (t, b),
+                (Err(e), _) | (_, Err(e)) => return err_case(e),
+            };
+            typed::run_decode(carrier, &t, &b).unwrap_or_else(err_case)
+        }
         ["D", ts, hx] => {
             let (t, b) = match (type_of_str(ts), unhex(hx)) {
                 (Ok(t), Ok(b)) => (t, b),
@@ -430,7 +437,7 @@ fn run_case(case: &str) -> String {
 }
 
 /// a corrupted / truncated / random byte string for the decoder stream
-fn mutate(r: &mut Rng, b: &[u8]) -> Vec<u8> {
+pub fn mutate(r: &mut Rng, b: &[u8]) -> Vec<u8> {
     let mut v = b.to_vec();
     match r.below(7) {
         0 => {
@@ -557,8 +564,14 @@ fn main() {
             }
             // typed Vec<Option<T>> bound to vectors / lists
             85..=87 => emit(&mut out, typed::gen_cells_case(&mut r)),
+            // typed decoders on intact / corrupted encodings and null cells
+            88..=90 => {
+                if let Some(c) = typed::gen_decode_case(&mut r, &mutate) {
+                    emit(&mut out, c);
+                }
+            }
             // decoder on corrupted encodings
-            88..=95 => {
+            91..=95 => {
                 let d = r.range(0, depth.min(3) as u64) as u32;
                 let t = gen_type(&mut r, d);
                 let c = gen_cell(&mut r, &t, 0);
